@@ -28,4 +28,386 @@ theorem natToBeFixed_pad (k : Nat) (b : Bytes) :
   rw [beToNat_append, beToNat_replicate_zero, List.length_append, List.length_replicate] at h
   simpa using h
 
+/-! ### public-key encodings -/
+
+theorem compress_length (P : Secp.Pt) : (Secp.compress P).length = 33 := by
+  unfold Secp.compress
+  rw [List.length_cons, natToBeFixed_length]
+
+theorem edDecodePub_inv (b : Bytes) (A : Ed.EdPub) (h : Ed.decodePub b = some A) :
+    A.bytes = b ∧ b.length = 32 := by
+  unfold Ed.decodePub at h
+  split at h
+  · cases h
+  · rename_i hl
+    rw [Option.map_eq_some_iff] at h
+    obtain ⟨P, _, hA⟩ := h
+    subst hA
+    exact ⟨rfl, by omega⟩
+
+theorem head?_eq_some_of_toNat {tag : UInt8} {rest : Bytes} {n : Nat} (hn : n < 256)
+    (h : tag.toNat = n) : (tag :: rest).head? = some (UInt8.ofNat n) := by
+  have e : tag = UInt8.ofNat n := UInt8.toNat_inj.mp (by rw [h, toNat_ofNat_lt256 hn])
+  rw [List.head?_cons, e]
+
+/-- libsecp256k1 never accepts the "compact" tag `05`. -/
+theorem decodePubLibsecp_tag5 (b : Bytes) (h : b.head? = some 5) :
+    Secp.decodePubLibsecp b = none := by
+  cases b with
+  | nil => rfl
+  | cons tag rest =>
+    simp only [List.head?_cons, Option.some.injEq] at h
+    subst h
+    unfold Secp.decodePubLibsecp
+    simp only
+    have h5 : (5 : UInt8).toNat = 5 := rfl
+    split
+    · rw [if_neg (by rw [h5]; omega)]
+    · split
+      · rw [if_neg (by rw [h5]; omega)]
+      · rfl
+
+/-- The two secp256k1 public-key parsers (written from the two crates' rules) agree on every input
+    except the 65-byte hybrid forms (tags `06`/`07`, libsecp only) and the compact tag `05`
+    (k256 only; `enr` rejects it before calling k256). -/
+theorem decodePub_k256_eq_libsecp' (b : Bytes)
+    (hhyb : b.length = 65 → b.head? ≠ some 6 ∧ b.head? ≠ some 7) (h5 : b.head? ≠ some 5) :
+    Secp.decodePubK256 b = Secp.decodePubLibsecp b := by
+  cases b with
+  | nil => rfl
+  | cons tag rest =>
+    have ht5 : tag.toNat ≠ 5 := fun h => h5 (head?_eq_some_of_toNat (n := 5) (by decide) h)
+    have ht67 : rest.length = 64 → tag.toNat ≠ 6 ∧ tag.toNat ≠ 7 := by
+      intro hl
+      have := hhyb (by rw [List.length_cons, hl])
+      exact ⟨fun h => this.1 (head?_eq_some_of_toNat (n := 6) (by decide) h),
+             fun h => this.2 (head?_eq_some_of_toNat (n := 7) (by decide) h)⟩
+    unfold Secp.decodePubK256 Secp.decodePubLibsecp
+    simp only
+    by_cases h23 : tag.toNat = 2 ∨ tag.toNat = 3
+    · rw [if_pos h23]
+      by_cases h32 : rest.length = 32
+      · rw [if_neg (by omega), if_pos h32, if_pos h23]
+      · rw [if_pos h32, if_neg h32]
+        split
+        · rw [if_neg (by omega)]
+        · rfl
+    · rw [if_neg h23, if_neg ht5]
+      by_cases h4 : tag.toNat = 4
+      · rw [if_pos h4]
+        by_cases h64 : rest.length = 64
+        · rw [if_neg (by omega), if_neg (by omega), if_pos h64, if_pos (Or.inl h4),
+            if_neg (by omega)]
+        · rw [if_pos h64, if_neg h64]
+          split
+          · first
+            | rfl
+            | rw [if_neg h23]
+          · rfl
+      · rw [if_neg h4]
+        split
+        · first
+          | rfl
+          | rw [if_neg h23]
+        · split
+          · rename_i h64
+            have := ht67 h64
+            rw [if_neg (by omega)]
+          · rfl
+
+/-! ### `enrToPublic` of the real schemes -/
+
+/-- The secp256k1 entry, when it is a byte string, is not a 65-byte SEC1 form. -/
+def SecpEntryNot65 (c : Content) : Prop :=
+  ∀ raw b rest, Map.lookup c kSecp = some raw → decodeBytes raw false = .ok (b, rest) →
+    b.length ≠ 65
+
+/-- The secp256k1 entry is not a 65-byte *hybrid* (`06`/`07`) form — the only inputs on which
+    k256 and libsecp256k1 disagree. -/
+def SecpEntryNotHybrid (c : Content) : Prop :=
+  ∀ raw b rest, Map.lookup c kSecp = some raw → decodeBytes raw false = .ok (b, rest) →
+    b.length = 65 → b.head? ≠ some 6 ∧ b.head? ≠ some 7
+
+theorem SecpEntryNot65.notHybrid {c : Content} (h : SecpEntryNot65 c) : SecpEntryNotHybrid c :=
+  fun raw b rest h1 h2 h3 => absurd h3 (h raw b rest h1 h2)
+
+theorem pubEntry_ok_inv (c : Content) (key b : Bytes) (h : pubEntry c key = .ok b) :
+    ∃ raw rest, Map.lookup c key = some raw ∧ decodeBytes raw false = .ok (b, rest) := by
+  unfold pubEntry at h
+  split at h
+  · cases h
+  · rename_i raw hraw
+    split at h
+    · cases h
+    · rename_i b' rest hd
+      simp only [Except.ok.injEq] at h
+      subst h
+      exact ⟨raw, rest, hraw, hd⟩
+
+theorem pubEntry_none (c : Content) (key : Bytes) (h : Map.lookup c key = none) :
+    pubEntry c key = .error (.custom .unknownSignature) := by
+  unfold pubEntry
+  rw [h]
+
+theorem pubEntry_local (c1 c2 : Content) (key : Bytes)
+    (h : Map.lookup c1 key = Map.lookup c2 key) : pubEntry c1 key = pubEntry c2 key := by
+  unfold pubEntry
+  rw [h]
+
+theorem enrToPublic_k256_eq_libsecp' (c : Content) (h : SecpEntryNotHybrid c) :
+    k256S.enrToPublic c = libsecpS.enrToPublic c := by
+  show secpEnrToPublic Secp.decodePubK256 true c = secpEnrToPublic Secp.decodePubLibsecp false c
+  unfold secpEnrToPublic
+  cases hp : pubEntry c kSecp with
+  | error e => rfl
+  | ok b =>
+    obtain ⟨raw, rest, hraw, hd⟩ := pubEntry_ok_inv c kSecp b hp
+    simp only [Bool.true_and, Bool.false_and, Bool.false_eq_true, if_false, beq_iff_eq]
+    by_cases h5 : b.head? = some 5
+    · rw [if_pos h5, decodePubLibsecp_tag5 b h5]
+    · rw [if_neg h5, decodePub_k256_eq_libsecp' b (h raw b rest hraw hd) h5]
+
+theorem secpEnrToPublic_ok_inv (dec : Bytes → Option Secp.Pt) (rc : Bool) (c : Content)
+    (pk : Bytes) (h : secpEnrToPublic dec rc c = .ok pk) :
+    ∃ b P, pubEntry c kSecp = .ok b ∧ dec b = some P ∧ pk = Secp.compress P := by
+  unfold secpEnrToPublic at h
+  split at h
+  · cases h
+  · rename_i b hb
+    split at h
+    · cases h
+    · split at h
+      · cases h
+      · rename_i P hP
+        simp only [Except.ok.injEq] at h
+        exact ⟨b, P, hb, hP, h.symm⟩
+
+theorem secpEnrToPublic_len (dec : Bytes → Option Secp.Pt) (rc : Bool) (c : Content) (pk : Bytes)
+    (h : secpEnrToPublic dec rc c = .ok pk) : pk.length = 33 := by
+  obtain ⟨_, P, _, _, rfl⟩ := secpEnrToPublic_ok_inv _ _ c pk h
+  exact compress_length P
+
+theorem edEnrToPublic_ok_inv (c : Content) (pk : Bytes) (h : edEnrToPublic c = .ok pk) :
+    pubEntry c kEd = .ok pk ∧ pk.length = 32 ∧ ∃ A, Ed.decodePub pk = some A := by
+  unfold edEnrToPublic at h
+  split at h
+  · cases h
+  · rename_i b hb
+    split at h
+    · cases h
+    · rename_i A hA
+      simp only [Except.ok.injEq] at h
+      obtain ⟨h1, h2⟩ := edDecodePub_inv b A hA
+      rw [h1] at h
+      subst h
+      exact ⟨hb, h2, A, hA⟩
+
+theorem edEnrToPublic_len (c : Content) (pk : Bytes) (h : edEnrToPublic c = .ok pk) :
+    pk.length = 32 :=
+  (edEnrToPublic_ok_inv c pk h).2.1
+
+theorem combS_enrToPublic_of_k256 (c : Content) (pk : Bytes) (h : k256S.enrToPublic c = .ok pk) :
+    combS.enrToPublic c = .ok pk := by
+  show (match k256S.enrToPublic c with
+      | .ok pk => .ok pk
+      | .error _ => edEnrToPublic c) = Except.ok pk
+  rw [h]
+
+theorem comb_falls_back_to_ed (c : Content) (e : RlpErr) (h : k256S.enrToPublic c = .error e) :
+    combS.enrToPublic c = edS.enrToPublic c := by
+  show (match k256S.enrToPublic c with
+      | .ok pk => .ok pk
+      | .error _ => edEnrToPublic c) = edEnrToPublic c
+  rw [h]
+
+theorem combS_enrToPublic_cases (c : Content) (pk : Bytes) (h : combS.enrToPublic c = .ok pk) :
+    (k256S.enrToPublic c = .ok pk ∧ pk.length = 33) ∨
+    ((∃ e, k256S.enrToPublic c = .error e) ∧ edS.enrToPublic c = .ok pk ∧ pk.length = 32) := by
+  cases hk : k256S.enrToPublic c with
+  | ok pk' =>
+    rw [combS_enrToPublic_of_k256 c pk' hk] at h
+    have e : pk' = pk := Except.ok.inj h
+    subst e
+    exact Or.inl ⟨rfl, secpEnrToPublic_len _ _ c _ hk⟩
+  | error e =>
+    rw [comb_falls_back_to_ed c e hk] at h
+    exact Or.inr ⟨⟨e, rfl⟩, h, edEnrToPublic_len c pk h⟩
+
+theorem secpEnrToPublic_none (dec : Bytes → Option Secp.Pt) (rc : Bool) (c : Content)
+    (h : Map.lookup c kSecp = none) :
+    secpEnrToPublic dec rc c = .error (.custom .unknownSignature) := by
+  unfold secpEnrToPublic
+  rw [pubEntry_none c kSecp h]
+
+theorem edEnrToPublic_none (c : Content) (h : Map.lookup c kEd = none) :
+    edEnrToPublic c = .error (.custom .unknownSignature) := by
+  unfold edEnrToPublic
+  rw [pubEntry_none c kEd h]
+
+/-! ### node ids and verification of `combS` on the two key shapes -/
+
+theorem nodeIdOf_comb_secp (pk : Bytes) (h : pk.length = 33) :
+    nodeIdOf combS pk = nodeIdOf k256S pk := by
+  show keccak256 (if pk.length = 33 then secpUncompressed pk else pk) =
+    keccak256 (secpUncompressed pk)
+  rw [if_pos h]
+
+theorem nodeIdOf_comb_ed (pk : Bytes) (h : pk.length ≠ 33) :
+    nodeIdOf combS pk = nodeIdOf edS pk := by
+  show keccak256 (if pk.length = 33 then secpUncompressed pk else pk) = keccak256 pk
+  rw [if_neg h]
+
+theorem verify_comb_secp (pk msg sig : Bytes) (h : pk.length = 33) :
+    combS.verify pk msg sig = k256S.verify pk msg sig := by
+  show (if pk.length = 33 then secpVerify pk msg sig else edVerify pk msg sig) = _
+  rw [if_pos h]
+  rfl
+
+theorem verify_comb_ed (pk msg sig : Bytes) (h : pk.length ≠ 33) :
+    combS.verify pk msg sig = edS.verify pk msg sig := by
+  show (if pk.length = 33 then secpVerify pk msg sig else edVerify pk msg sig) = _
+  rw [if_neg h]
+  rfl
+
+theorem except_isOk_iff {ε α : Type} (x : Except ε α) : x.isOk = true ↔ ∃ a, x = .ok a := by
+  cases x with
+  | ok a => exact ⟨fun _ => ⟨a, rfl⟩, fun _ => rfl⟩
+  | error e =>
+    constructor
+    · intro h; cases h
+    · rintro ⟨a, h⟩; cases h
+
+/-! ### transferring acceptance between key types -/
+
+/-- Only the `authentic` field of `Valid` depends on the key type. -/
+theorem Valid.transfer {S T : Scheme} {r : Record} (h : Valid S r)
+    (ha : ∃ pk, T.enrToPublic r.content = .ok pk ∧ r.nodeId = nodeIdOf T pk ∧
+      T.verify pk r.rlpContent r.sig = true) : Valid T r :=
+  ⟨h.seq_lt, h.sig_len, h.content, h.id_v4, h.size_le, ha⟩
+
+/-- If every record valid for `S` is valid for `T`, whatever `S` decodes `T` decodes identically. -/
+theorem decode_transfer (S T : Scheme) (buf : Bytes) (r : Record) (rest : Bytes)
+    (h : decode S buf = .ok (r, rest)) (hv : Valid S r → Valid T r) :
+    decode T buf = .ok (r, rest) := by
+  rw [← decode_reencode S buf r rest h]
+  exact encode_decode_append T r rest (hv (decode_valid S buf r rest h))
+
+/-! ### the pairs a buffer carries, whichever the key type -/
+
+/-- the content the decoder extracts from the payload of the outer list (scheme independent) -/
+def bodyContent (payload : Bytes) : Option Content :=
+  match decodeBytes payload false with
+  | .error _ => none
+  | .ok (_, p1) =>
+    match decodeUint 8 p1 with
+    | .error _ => none
+    | .ok (_, p2) =>
+      match decodePairs p2 none [] with
+      | .error _ => none
+      | .ok c => some c
+
+/-- the content the decoder extracts from a buffer (scheme independent) -/
+def contentOf (buf : Bytes) : Option Content :=
+  match decodeBytes buf true with
+  | .error _ => none
+  | .ok (payload, _) => bodyContent payload
+
+theorem bodyContent_of_decodeBody (S : Scheme) (payload : Bytes) (r : Record)
+    (h : decodeBody S payload = .ok r) : bodyContent payload = some r.content := by
+  unfold decodeBody at h
+  unfold bodyContent
+  split at h
+  · cases h
+  · split at h
+    · cases h
+    · rename_i sig p1 hsig
+      split at h
+      · cases h
+      · split at h
+        · cases h
+        · rename_i seq p2 hseq
+          split at h
+          · cases h
+          · rename_i content hpairs
+            split at h
+            · cases h
+            · simp only at h
+              split at h
+              · simp only [Except.ok.injEq] at h
+                subst h
+                simp only [hsig, hseq, hpairs]
+              · cases h
+
+theorem contentOf_of_decode (S : Scheme) (buf : Bytes) (r : Record) (rest : Bytes)
+    (h : decode S buf = .ok (r, rest)) : contentOf buf = some r.content := by
+  unfold decode at h
+  unfold contentOf
+  split at h
+  · cases h
+  · split at h
+    · cases h
+    · split at h
+      · cases h
+      · rename_i payload rest' hb
+        split at h
+        · cases h
+        · rename_i r' hbody
+          simp only [Except.ok.injEq, Prod.mk.injEq] at h
+          obtain ⟨rfl, _⟩ := h
+          simp only [hb]
+          exact bodyContent_of_decodeBody S payload r' hbody
+
+theorem contentOf_encode (S : Scheme) (r : Record) (rest : Bytes) (hv : Valid S r) :
+    contentOf (r.encode ++ rest) = some r.content :=
+  contentOf_of_decode S _ r rest (encode_decode_append S r rest hv)
+
+/-- `decodeBody` uses the key type's `enrToPublic` only on the content it extracted. -/
+theorem decodeBody_congr (S : Scheme) (f : Content → Except RlpErr S.PK) (payload : Bytes)
+    (h : ∀ c, bodyContent payload = some c → S.enrToPublic c = f c) :
+    decodeBody S payload = decodeBody { S with enrToPublic := f } payload := by
+  unfold decodeBody
+  split
+  · rfl
+  · cases h1 : decodeBytes payload false with
+    | error e => rfl
+    | ok v =>
+      obtain ⟨sig, p1⟩ := v
+      simp only
+      split
+      · rfl
+      · cases h2 : decodeUint 8 p1 with
+        | error e => rfl
+        | ok v2 =>
+          obtain ⟨seq, p2⟩ := v2
+          simp only
+          cases h3 : decodePairs p2 none [] with
+          | error e => rfl
+          | ok c =>
+            have hc := h c (by unfold bodyContent; simp only [h1, h2, h3])
+            simp only
+            rw [← hc]
+            cases h4 : S.enrToPublic c with
+            | error e => rfl
+            | ok pk =>
+              simp only [Record.verify, nodeIdOf]
+              rw [← hc, h4]
+
+theorem decode_congr (S : Scheme) (f : Content → Except RlpErr S.PK) (buf : Bytes)
+    (h : ∀ c, contentOf buf = some c → S.enrToPublic c = f c) :
+    decode S buf = decode { S with enrToPublic := f } buf := by
+  unfold decode
+  cases h1 : decodeHeader buf with
+  | error e => rfl
+  | ok v =>
+    obtain ⟨hd, item⟩ := v
+    simp only
+    split
+    · rfl
+    · cases h2 : decodeBytes buf true with
+      | error e => rfl
+      | ok v2 =>
+        obtain ⟨payload, rest⟩ := v2
+        simp only
+        rw [decodeBody_congr S f payload (fun c hc => h c (by unfold contentOf; simp only [h2, hc]))]
+
 end EnrVerif
